@@ -6,7 +6,7 @@
    the model. *)
 From Coq Require Import List ZArith Bool.
 From SVC Require Import Base.AMap Base.Res Model.Types Model.Handlers Model.EndBlock Model.Step
-  Proofs.Inv Proofs.CtxOps Proofs.TraceBase Proofs.C12Proofs Proofs.TraceBatch.
+  Proofs.Inv Proofs.CtxOps Proofs.TraceBase Proofs.C12Proofs Proofs.TraceBatch Proofs.ThrProofs.
 Import ListNotations.
 Open Scope Z_scope.
 
@@ -197,3 +197,41 @@ Theorem C12_state_callback : forall cfg,
                         + (if eqb c c0 && paused_now && negb (c_mod rc =? 0) then 1 else 0)).
 Proof. exact TraceBatch.C12_state_callback. Qed.
 Print Assumptions C12_state_callback.
+
+(* ---- the threshold a response callback is judged by ----
+   The callback's error flag is `len outs <? c_bthr rc` (C12_callback_respond, C12_callback_expire_one):
+   the PER-BATCH threshold.  It is written only when a batch starts, as a copy of the context's threshold
+   in force then (C12_completion_new_one, C06_batch_threshold); nothing else touches it, while the
+   context's own threshold changes only by the owning module's keeper.UpdateRequestContext. *)
+
+(* no message and no keeper call changes the per-batch threshold; only OModUpdate changes the
+   context's threshold: to the positive value asked for, at most the number of providers afterwards *)
+Theorem C12_batch_threshold_msg : forall cfg s o s' c rc rc',
+  wf_cfg cfg -> Inv cfg s -> wf_op s o -> (forall dt, o <> OEndBlock dt) ->
+  handle cfg s o = Ok s' ->
+  get c (ctxs s) = Some rc -> get c (ctxs s') = Some rc' ->
+  c_bthr rc' = c_bthr rc
+  /\ (c_thr rc' <> c_thr rc ->
+        exists provs thr cap timeout freq total,
+          o = OModUpdate c (c_cons rc) provs thr cap timeout freq total /\ c_mod rc <> 0
+          /\ c_thr rc' = thr /\ 1 <= thr <= len (c_provs rc')).
+Proof. exact ThrProofs.C12_batch_threshold_msg. Qed.
+Print Assumptions C12_batch_threshold_msg.
+
+(* the expiry handler (which emits the callback of a batch that times out) touches neither threshold *)
+Theorem C12_batch_threshold_expire_one : forall cfg s c c' rc rc',
+  wf_cfg cfg -> Inv cfg s -> In (height s, c) (expq s) -> height s < HEIGHT_BOUND ->
+  get c' (ctxs s) = Some rc -> get c' (ctxs (expire_one cfg s c)) = Some rc' ->
+  c_thr rc' = c_thr rc /\ c_bthr rc' = c_bthr rc.
+Proof. exact ThrProofs.C12_batch_threshold_expire_one. Qed.
+Print Assumptions C12_batch_threshold_expire_one.
+
+(* the new-batch handler never changes the context's threshold, and rewrites the per-batch one only
+   for the context it starts a batch of: to the context's current threshold *)
+Theorem C12_threshold_new_one : forall cfg s c c' rc rc',
+  wf_cfg cfg -> Inv cfg s -> In (height s, c) (newq s) -> height s < HEIGHT_BOUND ->
+  get c' (ctxs s) = Some rc -> get c' (ctxs (new_one cfg s c)) = Some rc' ->
+  c_thr rc' = c_thr rc
+  /\ (c_bthr rc' <> c_bthr rc -> c' = c /\ c_counter rc' = c_counter rc + 1 /\ c_bthr rc' = c_thr rc).
+Proof. exact ThrProofs.C12_threshold_new_one. Qed.
+Print Assumptions C12_threshold_new_one.
